@@ -5,6 +5,7 @@
 -/
 import Lean.Data.Json
 import CxxModel.Ply
+import CxxModel.TokStream
 import CxxModel.Gen.LexRules
 open Lean
 
@@ -45,10 +46,85 @@ def opRe (j : Json) : Json :=
     | none => Json.mkObj [("m", Json.null)]
     | some rest => Json.mkObj [("m", toJson (text.length - rest.length))]
 
+def jtok (t : Tok) : Json := Json.arr #[Json.str t.type, Json.str t.value, jloc t.loc]
+
+def jerr : Err → Json
+  | .lex e => Json.mkObj [("k", "lex"), ("msg", Json.str e.msg), ("value", jstr e.tokValue), ("loc", jloc e.loc)]
+  | .parse msg tok => Json.mkObj [("k", "parse"), ("msg", Json.str msg), ("tok", jopt (fun (t : CTok) => Json.arr #[Json.str t.type, Json.str t.value]) tok)]
+  | .eof => Json.mkObj [("k", "eof")]
+  | .py cls msg => Json.mkObj [("k", "py"), ("cls", Json.str cls), ("msg", Json.str msg)]
+  | .visitor i => Json.mkObj [("k", "visitor"), ("idx", toJson i)]
+  | .fuel => Json.mkObj [("k", "fuel")]
+  | .unsupported w => Json.mkObj [("k", "unsupported"), ("what", Json.str w)]
+
+def getArr (j : Json) (k : String) : Array Json :=
+  match j.getObjVal? k with
+  | .ok (.arr a) => a
+  | _ => #[]
+
+def jsonStrs (a : Array Json) : List String :=
+  a.toList.filterMap (fun j => match j with | .str s => some s | _ => none)
+
+/-- one token-stream operation; `got` is the list of tokens handed out so far (most recent last) -/
+def streamStep (opj : Json) (b : Buf) (got : List Tok) : Except Err (Json × Buf × List Tok) :=
+  let a := match opj with | .arr a => a | _ => #[]
+  let name := match a[0]? with | some (.str s) => s | _ => ""
+  let args := jsonStrs (a.extract 1 a.size)
+  let optTok (r : Except Err (Option Tok × Buf)) : Except Err (Json × Buf × List Tok) :=
+    match r with
+    | .error e => .error e
+    | .ok (none, b') => .ok (Json.null, b', got)
+    | .ok (some t, b') => .ok (jtok t, b', got ++ [t])
+  match name with
+  | "token" =>
+    match token cfg b with
+    | .error e => .error e
+    | .ok (t, b') => .ok (jtok t, b', got ++ [t])
+  | "token_eof_ok" => optTok (tokenEofOk cfg b)
+  | "token_newline_eof_ok" => optTok (tokenNewlineEofOk cfg b)
+  | "token_if" => optTok (tokenIf cfg args b)
+  | "token_if_val" => optTok (tokenIfVal cfg args b)
+  | "token_if_not" => optTok (tokenIfNot cfg args b)
+  | "token_peek_if" =>
+    match tokenPeekIf cfg args b with
+    | .error e => .error e
+    | .ok (r, b') => .ok (Json.bool r, b', got)
+  | "return_last" =>
+    let k := (args.head?.bind String.toNat?).getD 1
+    let k := min k got.length
+    let back := got.drop (got.length - k)
+    .ok (toJson k, returnTokens back b, got.take (got.length - k))
+  | "current_location" =>
+    match currentLocation b with
+    | .error e => .error e
+    | .ok l => .ok (jloc l, b, got)
+  | "get_doxygen" =>
+    match getDoxygen cfg Gen.multicommentRe b with
+    | .error e => .error e
+    | .ok (d, b') => .ok (jopt Json.str d, b', got)
+  | "get_doxygen_after" =>
+    let (d, b') := getDoxygenAfter Gen.multicommentRe b
+    .ok (jopt Json.str d, b', got)
+  | _ => .error (.unsupported name)
+
+def streamRun : List Json → Buf → List Tok → List Json → (List Json × Option Err)
+  | [], _, _, acc => (acc.reverse, none)
+  | op :: ops, b, got, acc =>
+    match streamStep op b got with
+    | .error e => (acc.reverse, some e)
+    | .ok (r, b', got') => streamRun ops b' got' (r :: acc)
+
+def opStream (j : Json) : Json :=
+  let text := strToStr (getStr j "text")
+  let b : Buf := { tokbuf := [], lex := { rest := text, filename := getOptStr j "filename" } }
+  let (outs, err) := streamRun (getArr j "ops").toList b [] []
+  Json.mkObj [("outs", Json.arr outs.toArray), ("err", jopt jerr err)]
+
 def handle (j : Json) : Json :=
   match getStr j "op" with
   | "lex" => opLex j
   | "re" => opRe j
+  | "stream" => opStream j
   | "ping" => Json.mkObj [("pong", Json.bool true)]
   | op => Json.mkObj [("error", Json.str s!"unknown op {op}")]
 
